@@ -485,14 +485,14 @@ func exploreArith(sc []mc.Val, pairs []mc.Pair) {
 			op := &uops[oi]
 			for _, aliased := range []bool{false, true} {
 				R.T(1)
-				if m := runUn(op, va, aliased); m != "" {
+				if m := mc.Safe(func() string { return runUn(op, va, aliased) }); m != "" {
 					failUn("", op, va, aliased, m)
 				}
 			}
 			level1.add(op.ref(va))
 		}
 		R.T(1)
-		if m := runPred(va); m != "" {
+		if m := mc.Safe(func() string { return runPred(va) }); m != "" {
 			R.Mismatch("scalar/predicates", "pred", m, mc.D{"a": hexv(va), "label": sc[i].Label})
 		}
 		if va.Cmp(ref.HalfN) > 0 {
@@ -516,7 +516,7 @@ func exploreArith(sc []mc.Val, pairs []mc.Pair) {
 						continue
 					}
 					t++
-					if m := runBin(op, va, vb, al); m != "" {
+					if m := mc.Safe(func() string { return runBin(op, va, vb, al) }); m != "" {
 						failBin("", op, va, vb, al, m)
 					}
 				}
@@ -525,7 +525,7 @@ func exploreArith(sc []mc.Val, pairs []mc.Pair) {
 				}
 			}
 			t++
-			if m := runEqual(va, vb); m != "" {
+			if m := mc.Safe(func() string { return runEqual(va, vb) }); m != "" {
 				R.Mismatch("scalar/Equal", "equal", m, mc.D{"a": hexv(va), "b": hexv(vb)})
 			}
 		}
@@ -554,7 +554,7 @@ func exploreArith(sc []mc.Val, pairs []mc.Pair) {
 			op := &bops[oi]
 			for al := range binAliases {
 				R.T(1)
-				if m := runBin(op, p.A, p.B, al); m != "" {
+				if m := mc.Safe(func() string { return runBin(op, p.A, p.B, al) }); m != "" {
 					failBin("/steered:"+p.Class, op, p.A, p.B, al, m)
 				}
 			}
@@ -562,7 +562,7 @@ func exploreArith(sc []mc.Val, pairs []mc.Pair) {
 		}
 		for _, v := range []*big.Int{p.A, p.B} {
 			R.T(1)
-			if m := runUn(&uops[1], v, false); m != "" {
+			if m := mc.Safe(func() string { return runUn(&uops[1], v, false) }); m != "" {
 				failUn("/steered", &uops[1], v, false, m)
 			}
 		}
@@ -606,12 +606,12 @@ func exploreArith(sc []mc.Val, pairs []mc.Pair) {
 				continue
 			}
 			t++
-			if m := runUn(op, va, i%2 == 0); m != "" {
+			if m := mc.Safe(func() string { return runUn(op, va, i%2 == 0) }); m != "" {
 				failUn("/level2", op, va, i%2 == 0, m)
 			}
 		}
 		t++
-		if m := runPred(va); m != "" {
+		if m := mc.Safe(func() string { return runPred(va) }); m != "" {
 			R.Mismatch("scalar/predicates/level2", "pred", m, mc.D{"a": hexv(va)})
 		}
 		for j := range sub {
@@ -620,10 +620,10 @@ func exploreArith(sc []mc.Val, pairs []mc.Pair) {
 				op := &bops[oi]
 				al := (i + j + oi) % 3
 				t += 2
-				if m := runBin(op, va, vb, al); m != "" {
+				if m := mc.Safe(func() string { return runBin(op, va, vb, al) }); m != "" {
 					failBin("/level2", op, va, vb, al, m)
 				}
-				if m := runBin(op, vb, va, al); m != "" {
+				if m := mc.Safe(func() string { return runBin(op, vb, va, al) }); m != "" {
 					failBin("/level2", op, vb, va, al, m)
 				}
 				st(op.ref(va, vb))
@@ -689,7 +689,7 @@ func exploreVectors() {
 		for recv := -1; recv < len(j.objs); recv++ {
 			for _, product := range []bool{false, true} {
 				t++
-				if m := runVec(product, j.objs, j.slots, recv); m != "" {
+				if m := mc.Safe(func() string { return runVec(product, j.objs, j.slots, recv) }); m != "" {
 					var hs []string
 					for _, o := range j.objs {
 						hs = append(hs, hexv(o))
@@ -707,10 +707,10 @@ func exploreVectors() {
 	R.Bound("vector_len_max", maxLen)
 	R.Sample("vector", map[string]any{"op": "Product", "objs": []string{"n-1", "2"}, "slots": []int{0, 1, 0}, "recv": 0, "meaning": "z=objs[0]; z.Product(objs[0],objs[1],objs[0])"})
 	// the empty vectors explicitly
-	if m := runVec(true, nil, nil, -1); m != "" {
+	if m := mc.Safe(func() string { return runVec(true, nil, nil, -1) }); m != "" {
 		R.Mismatch("scalar/vec/Product()", "vec", m, mc.D{"product": true, "objs": []string{}, "slots": []int{}, "recv": -1})
 	}
-	if m := runVec(false, nil, nil, -1); m != "" {
+	if m := mc.Safe(func() string { return runVec(false, nil, nil, -1) }); m != "" {
 		R.Mismatch("scalar/vec/Sum()", "vec", m, mc.D{"product": false, "objs": []string{}, "slots": []int{}, "recv": -1})
 	}
 }
@@ -740,7 +740,7 @@ func exploreDecode(sc []mc.Val) {
 	top := new(big.Int).Sub(ref.R256, big.NewInt(1))
 	var n int64
 	check := func(x *big.Int) {
-		if m := runDecode(x); m != "" {
+		if m := mc.Safe(func() string { return runDecode(x) }); m != "" {
 			R.Mismatch("scalar/decode", "decode", m, mc.D{"bytes": hexv(x)})
 		}
 	}
@@ -783,7 +783,7 @@ func exploreDecode(sc []mc.Val) {
 						}
 						for _, al := range []bool{false, true} {
 							cnt++
-							if m := runReduce(x, al); m != "" {
+							if m := mc.Safe(func() string { return runReduce(x, al) }); m != "" {
 								R.Mismatch("scalar/reduceSaturated", "reduce", m, mc.D{"src": hexv(x), "aliased": al})
 							}
 						}
